@@ -443,6 +443,13 @@ def run(ctx: Ctx) -> int:
         for k in ("Namespace", "dict", "list"):
             ok = k in arms and not arms[k][1]
             ctx.oblige("C11.d", ok, arms[k][0] if k in arms else nad, f"{conv_name} converts a {k} whenever the value is one" if ok else (f"{conv_name} has no arm for {k} values" if k not in arms else f"the {k} arm of {conv_name} also depends on {arms[k][1]}: containers that mix namespaces with nulls or scalars (List[Optional[Cls]] = [spec, None]) are left as they are or break the conversion - the json dump of an accepted configuration raises"), fn=nad, construct=f"{k} arm")
+        for k in ("list", "tuple"):
+            if k in arms:
+                r_ = arms[k][0]
+                rebuilds_same_type = any(isinstance(c_, ast.Call) and isinstance(c_.func, ast.Call) and call_leaf(c_.func) == "type" for c_ in ast.walk(r_.value))
+                exact = any(pol and isinstance(t, ast.Compare) and isinstance(t.left, ast.Call) and call_leaf(t.left) == "type" for t, pol in guard_atoms(r_, stop=nad))
+                ok = (not rebuilds_same_type) or exact
+                ctx.oblige("C11.d", ok, r_, f"the {k} arm rebuilds the container with its own class only for the exact builtin types" if ok else f"the {k} arm calls type({npar})(<generator>) for every list / tuple SUBCLASS: a namedtuple (or any subclass with its own constructor) is called with one generator argument - as_dict raises TypeError, or a NamedTuple with defaults silently becomes Range(lo=<generator>, hi=9)", fn=nad, construct=f"{k} arm exact type")
         if "Namespace" in arms:
             rv = arms["Namespace"][0].value
             ok = isinstance(rv, ast.Call) and call_leaf(rv) == "as_dict" and root_name(rv.func) == npar
